@@ -123,8 +123,9 @@ pub fn carries_config(codec: u8, data: &[u8]) -> HasCfg {
     }
 }
 
-/// The generator's frames always have >= 4 bytes after the colour byte, two complete base-128
-/// integers (<= 3 bytes each here) and, optionally, a render size. Recognise exactly that.
+/// The generator's frames have two complete base-128 integers (<= 3 bytes each here), optionally
+/// a render size, and either >= 4 bytes after the colour byte or (compact form) none at all.
+/// Recognise exactly that.
 fn vp9_header_plausible(d: &[u8]) -> bool {
     let profile = d[3] >> 6;
     let mut o = 5 + (profile >= 2) as usize;
@@ -142,6 +143,11 @@ fn vp9_header_plausible(d: &[u8]) -> bool {
         return false;
     }
     let Some(&flag) = d.get(o) else { return false };
+    if o + 1 == d.len() {
+        // compact form: the colour byte is the last byte of the frame (no render size can follow,
+        // so its bits 2..3 are colour-space bits): a key frame with a complete configuration
+        return true;
+    }
     if flag & 0x0c != 0 {
         o += 1;
         if !var(&mut o) || !var(&mut o) {
